@@ -28,7 +28,7 @@ From Coq Require Import NArith ZArith List String Bool.
 From V Require Import Base.UString Base.Json Model.SchemaTypes Model.PyBase Model.Schema Model.SchemaRun
      Spec.StixValid Spec.SchemaRefine Gen.Tables Gen.SpecTables
      Proofs.SchemaScope Proofs.SchemaProved Proofs.SchemaKnot Proofs.SchemaTables Proofs.SchemaC02
-     Proofs.SchemaCovProved Proofs.SchemaCovKnot Proofs.SchemaCovC02.
+     Proofs.SchemaCovProved Proofs.SchemaCovKnot Proofs.SchemaCovC02 Proofs.SchemaAudit.
 Import ListNotations.
 
 (* The side condition of strict_sound, discharged by the kernel on the tables regenerated from /repo:
@@ -112,7 +112,42 @@ Theorem strict_sound_refuted_empty_extensions : refuted_by vr_ext_empty req_ext_
 Proof. exact refuted_ext_empty. Qed.
 Print Assumptions strict_sound_refuted_empty_extensions.
 
+(* ---- three further audited rules (2026-09-29) ----
+   valid_obj_x (Spec/StixValid.v) = valid_obj plus: a binary property is RFC 4648 base64 text; no null and no empty
+   list inside a dictionary value.  The rule created <= modified is a co-constraint of the frozen tables (audited
+   override), hence part of valid_obj itself.  The soundness theorems above are about valid_obj; valid_obj_x is the
+   predicate of the check's oracle.  It strengthens valid_obj, and the code as pinned violates each of the three
+   rules: the model of the pinned behaviour is refuted, the repaired one refuses the witness.             *)
+Theorem audited_validator_strengthens :
+  forall (sw : world) pok n c j, valid_obj_x sw pok n c j = true -> valid_obj sw pok n c j = true.
+Proof. exact valid_obj_x_sub. Qed.
+Print Assumptions audited_validator_strengthens.
+
+(* lenient base64 decoding (vr_b64_strict = false): payload_bin "aGVs bG8=" is accepted and emitted *)
+Theorem strict_sound_refuted_binary_not_base64 : refuted_x_by vr_b64_lenient lib req_b64.
+Proof. exact refuted_b64. Qed.
+Print Assumptions strict_sound_refuted_binary_not_base64.
+
+(* DictionaryProperty does not look at the values, in the pinned and in the fully repaired variant of the model
+   alike (no repair is proposed): {"PATH": null} is emitted *)
+Theorem strict_sound_refuted_dictionary_null_value :
+  refuted_x_by variant_repaired lib req_dict_null /\ refuted_x_by variant_pinned lib req_dict_null.
+Proof. exact refuted_dict_values. Qed.
+Print Assumptions strict_sound_refuted_dictionary_null_value.
+
+(* class tables without the created <= modified rule (the regenerated tables minus that one constraint: the
+   identity on a tree that does not check it): an identity modified before it was created is emitted *)
+Theorem strict_sound_refuted_modified_before_created : refuted_tables_by (strip_time_order lib) req_modified.
+Proof. exact refuted_modified. Qed.
+Print Assumptions strict_sound_refuted_modified_before_created.
+
 (* the hypotheses are satisfiable *)
 Example variant_sound_repaired : variant_sound variant_repaired = true. Proof. reflexivity. Qed.
 Example env_ok_sentinel : env_ok sentinel_env = true. Proof. vm_compute. reflexivity. Qed.
 Example covered_nonempty : lib_covered <> []. Proof. discriminate. Qed.
+Example repaired_refuses_lenient_base64 :
+  run variant_repaired sentinel_env lib witness_pok witness_sok 6 req_b64 = Err EInvalidValue.
+Proof. exact repaired_b64. Qed.
+Example tables_with_rule_refuse_modified_before_created :
+  run variant_repaired sentinel_env spec witness_pok witness_sok 6 req_modified = Err EInvalidValue.
+Proof. exact repaired_modified. Qed.
